@@ -621,9 +621,6 @@ class AsmFuncGen(object):
                     self.emit("CMP %s, 0x0" % cnt)
                     self.emit("JA %s" % ll)
 
-    def busy_filter(self):
-        pass
-
     def text(self):
         r = self.rng
         self.lines = ["main:"]
